@@ -18,9 +18,9 @@ Qed.
 
 Section Final.
 Variable decode : list N -> option msg.
-Variable method_kind : list N -> N.
-Variable req_ok : list N -> bool.
-Variable service : list N -> list N -> option sres.
+Variable method_kind : N -> list N -> N.
+Variable req_ok : N -> list N -> bool.
+Variable service : N -> list N -> list N -> option sres.
 Notation run := (run decode method_kind req_ok service).
 Notation descriptor_ready := (descriptor_ready decode method_kind req_ok service).
 
@@ -88,7 +88,7 @@ Proof. intros. eapply run_dispatch; eauto. Qed.
 
 Lemma once s0 ops f r tr :
   s0 < 4294967296 ->
-  run init_frame (mkRpc false s0 0 [] 0 [] []) ops = (f, r, tr) ->
+  run init_frame (mkRpc false s0 0 [] 0 [] [] 0) ops = (f, r, tr) ->
   (forall k, k < ncalls r ->
      (In k (streams tr) /\ cnt k (dones tr) = 0%nat /\ lookup (u32 (s0 + k)) (responses r) <> Some k) \/
      (~ In k (streams tr) /\
@@ -124,20 +124,20 @@ Qed.
 
 Lemma stream_ids s0 k k' :
   k' < k -> k < k' + 4294967296 -> u32 (s0 + k) <> u32 (s0 + k').
-Proof. exact (ids_distinct s0 k k'). Qed.
+Proof. exact (ids_distinct s0 method_kind req_ok service k k'). Qed.
 
 (* no reply completes a call other than the one whose id it carries *)
 Lemma no_cross s0 ops f r tr :
   s0 < 4294967296 ->
-  run init_frame (mkRpc false s0 0 [] 0 [] []) ops = (f, r, tr) ->
+  run init_frame (mkRpc false s0 0 [] 0 [] [] 0) ops = (f, r, tr) ->
   forall m k k', lookup (m_id m) (responses r) = Some k' -> m_id m = u32 (s0 + k) ->
   k < k' + 4294967296 -> k' < k + 4294967296 -> k' = k.
 Proof.
   intros Hs H m k k' Hl Hid H1 H2. apply run_once in H; [|exact Hs]. destruct H as (A & _).
   apply A in Hl. destruct Hl as [_ Hid']. unfold idof in Hid'.
   destruct (N.lt_trichotomy k k') as [Hlt|[He|Hgt]]; [|auto|].
-  - exfalso. apply (ids_distinct s0 k' k Hlt H2). unfold idof. congruence.
-  - exfalso. apply (ids_distinct s0 k k' Hgt H1). unfold idof. congruence.
+  - exfalso. apply (ids_distinct s0 method_kind req_ok service k' k Hlt H2). unfold idof. congruence.
+  - exfalso. apply (ids_distinct s0 method_kind req_ok service k k' Hgt H1). unfold idof. congruence.
 Qed.
 
 (* serving side: every reply written carries the id of a request that was dispatched *)
@@ -191,7 +191,7 @@ Qed.
 (* an unknown method is answered with NOT_IMPLEMENTED carrying the request's id; the service is not called *)
 Lemma not_implemented cl r m r' evs :
   m_type m = REQUEST \/ m_type m = STREAM_REQUEST ->
-  method_kind (m_name m) = 0 -> dead r || cl = false ->
+  method_kind (svc r) (m_name m) = 0 -> dead r || cl = false ->
   dispatch method_kind req_ok service cl true r m = (r', evs) ->
   evs = [EvSend (mkMsg RESPONSE_NOT_IMPLEMENTED (m_id m) [] [])] /\ r' = r.
 Proof.
@@ -208,10 +208,10 @@ Qed.
    reply / failure text written under the request's id and the request object is deleted *)
 Lemma request_served cl r m r' evs fr :
   WR r fr -> m_type m = REQUEST ->
-  method_kind (m_name m) <> 0 -> method_kind (m_name m) <> 3 -> req_ok (m_buf m) = true ->
+  method_kind (svc r) (m_name m) <> 0 -> method_kind (svc r) (m_name m) <> 3 -> req_ok (svc r) (m_buf m) = true ->
   lookup (m_id m) (requests r) = None -> dead r || cl = false ->
   dispatch method_kind req_ok service cl true r m = (r', evs) ->
-  match service (m_name m) (m_buf m) with
+  match service (svc r) (m_name m) (m_buf m) with
   | None =>
     evs = [EvService (m_name m) (m_buf m)] /\
     requests r' = (m_id m, nreq r) :: requests r /\ nreq r' = nreq r + 1
@@ -228,7 +228,7 @@ Proof.
   intros HW Ht K0 K3 Hq Hl Hd H. unfold dispatch in H. rewrite Ht in H. cbn in H.
   unfold handle_request, supersede in H.
   apply N.eqb_neq in K0, K3. rewrite K0, K3, Hq, Hl in H. cbn in H.
-  destruct (service (m_name m) (m_buf m)) as [res|].
+  destruct (service (svc r) (m_name m) (m_buf m)) as [res|].
   - unfold request_complete in H. cbn in H.
     assert (Hm : memN (nreq r) (cancelled r) = false).
     { destruct (memN (nreq r) (cancelled r)) eqn:E; [|reflexivity].
@@ -268,12 +268,12 @@ Qed.
 (* a stream request naming an ordinary (non-streaming) method, or arriving when no service is set, is
    refused: nothing is called, nothing is sent *)
 Lemma stream_request_refused cl ok r m :
-  m_type m = STREAM_REQUEST -> method_kind (m_name m) <> 0 -> method_kind (m_name m) <> 2 ->
+  m_type m = STREAM_REQUEST -> method_kind (svc r) (m_name m) <> 0 -> method_kind (svc r) (m_name m) <> 2 ->
   dispatch method_kind req_ok service cl ok r m = (r, []).
 Proof.
   intros Ht K0 K2. unfold dispatch, resp_outcome. rewrite Ht. cbn.
   unfold handle_stream_request. apply N.eqb_neq in K0, K2. rewrite K0, K2.
-  destruct (method_kind (m_name m) =? 3); reflexivity.
+  destruct (method_kind (svc r) (m_name m) =? 3); reflexivity.
 Qed.
 
 (* the service is only ever called for a REQUEST to a method it has (with a response object and a
@@ -281,9 +281,9 @@ Qed.
    (the only case with NULL response / done); always with a request buffer that parsed *)
 Lemma service_called_only_if cl ok r m r' evs nm rq :
   dispatch method_kind req_ok service cl ok r m = (r', evs) -> In (EvService nm rq) evs ->
-  nm = m_name m /\ rq = m_buf m /\ req_ok (m_buf m) = true /\
-  ((m_type m = REQUEST /\ method_kind (m_name m) <> 0 /\ method_kind (m_name m) <> 3) \/
-   (m_type m = STREAM_REQUEST /\ method_kind (m_name m) = 2)).
+  nm = m_name m /\ rq = m_buf m /\ req_ok (svc r) (m_buf m) = true /\
+  ((m_type m = REQUEST /\ method_kind (svc r) (m_name m) <> 0 /\ method_kind (svc r) (m_name m) <> 3) \/
+   (m_type m = STREAM_REQUEST /\ method_kind (svc r) (m_name m) = 2)).
 Proof.
   intros H Hi.
   assert (Hs : forall c o r0 mm r1 e b, send_msg c o r0 mm = (r1, e, b) -> ~ In (EvService nm rq) e).
@@ -292,21 +292,21 @@ Proof.
   unfold dispatch in H.
   destruct (m_type m =? REQUEST) eqn:Et.
   - apply N.eqb_eq in Et. unfold handle_request in H.
-    destruct (method_kind (m_name m) =? 3) eqn:K3; [inversion H; subst; contradiction|].
-    destruct (method_kind (m_name m) =? 0) eqn:K0.
+    destruct (method_kind (svc r) (m_name m) =? 3) eqn:K3; [inversion H; subst; contradiction|].
+    destruct (method_kind (svc r) (m_name m) =? 0) eqn:K0.
     + destruct (send_msg _ _ _ _) as [[r1 e1] b1] eqn:E. inversion H; subst. exfalso. eapply Hs; eauto.
-    + destruct (req_ok (m_buf m)) eqn:Eq; cbn [negb] in H; [|inversion H; subst; contradiction].
+    + destruct (req_ok (svc r) (m_buf m)) eqn:Eq; cbn [negb] in H; [|inversion H; subst; contradiction].
       apply N.eqb_neq in K3, K0.
       assert (Hgoal : In (EvService nm rq) [EvService (m_name m) (m_buf m)] ->
                       nm = m_name m /\ rq = m_buf m /\ true = true /\
-                      (m_type m = REQUEST /\ method_kind (m_name m) <> 0 /\ method_kind (m_name m) <> 3 \/
-                       m_type m = STREAM_REQUEST /\ method_kind (m_name m) = 2)).
+                      (m_type m = REQUEST /\ method_kind (svc r) (m_name m) <> 0 /\ method_kind (svc r) (m_name m) <> 3 \/
+                       m_type m = STREAM_REQUEST /\ method_kind (svc r) (m_name m) = 2)).
       { intros [Hx|[]]. inversion Hx; subst. auto 10. }
       destruct (supersede cl ok r (m_id m)) as [r1 evs1] eqn:E1.
       assert (H1 : ~ In (EvService nm rq) evs1).
       { unfold supersede in E1. destruct (lookup _ _); [|inversion E1; subst; auto].
         destruct (send_msg _ _ _ _) as [[r2 e2] b2] eqn:E. inversion E1; subst. eapply Hs; eauto. }
-      destruct (service (m_name m) (m_buf m)) as [res|].
+      destruct (service (svc r) (m_name m) (m_buf m)) as [res|].
       * destruct (request_complete _ _ _ _ _) as [r3 evs3] eqn:E3. inversion H; subst.
         assert (H3 : ~ In (EvService nm rq) evs3).
         { unfold request_complete in E3. destruct (memN _ _); [inversion E3; subst; intros [Hx|[]]; discriminate|].
@@ -319,14 +319,24 @@ Proof.
     + unfold handle_response in H. destruct (lookup _ _); inversion H; subst; [destruct Hi as [Hx|[]]; discriminate|contradiction].
     + destruct (m_type m =? STREAM_REQUEST) eqn:Es; [|inversion H; subst; contradiction].
       apply N.eqb_eq in Es. unfold handle_stream_request in H.
-      destruct (method_kind (m_name m) =? 3); [inversion H; subst; contradiction|].
-      destruct (method_kind (m_name m) =? 0).
+      destruct (method_kind (svc r) (m_name m) =? 3); [inversion H; subst; contradiction|].
+      destruct (method_kind (svc r) (m_name m) =? 0).
       * destruct (send_msg _ _ _ _) as [[r1 e1] b1] eqn:E. inversion H; subst. exfalso. eapply Hs; eauto.
-      * destruct (method_kind (m_name m) =? 2) eqn:K2; cbn [negb] in H; [|inversion H; subst; contradiction].
+      * destruct (method_kind (svc r) (m_name m) =? 2) eqn:K2; cbn [negb] in H; [|inversion H; subst; contradiction].
         apply N.eqb_eq in K2.
-        destruct (req_ok (m_buf m)) eqn:Eq; cbn [negb] in H; [|inversion H; subst; contradiction].
+        destruct (req_ok (svc r) (m_buf m)) eqn:Eq; cbn [negb] in H; [|inversion H; subst; contradiction].
         inversion H; subst. destruct Hi as [Hx|[]]. inversion Hx; subst. auto 10.
 Qed.
+
+(* SetService only replaces the service: from the next message on dispatch goes by the new service's
+   method table (all dispatch theorems speak of [svc r]); nothing else changes, nothing is sent *)
+Lemma set_service f r k :
+  step decode method_kind req_ok service f r (OpSetService k) = (f, set_svc r k, []) /\
+  svc (set_svc r k) = k /\ dead (set_svc r k) = dead r /\ seq (set_svc r k) = seq r /\
+  ncalls (set_svc r k) = ncalls r /\ responses (set_svc r k) = responses r /\
+  nreq (set_svc r k) = nreq r /\ requests (set_svc r k) = requests r /\
+  cancelled (set_svc r k) = cancelled r.
+Proof. cbn. repeat split; reflexivity. Qed.
 
 End Final.
 
